@@ -410,6 +410,14 @@ class PeerConnection:
                 f"connection is closing, ignoring received message")
             return
 
+        if self.state == PEER_CONNECTING:
+            # bytes that the remote end sends as soon as the connection is
+            # up can get here before the connection thread has noted that
+            # the connect has completed and has sent the CER
+            self.logger.warning(
+                f"connection is not yet established, ignoring received message")
+            return
+
         if self.state == PEER_CONNECTED:
             if msg.header.command_code != constants.CMD_CAPABILITIES_EXCHANGE:
                 self.logger.warning(
